@@ -45,6 +45,30 @@ fn g2_identity() -> Vec<u8> {
     v[0] = 0xc0;
     v
 }
+/// a point of E(Fp) outside the prime-order subgroup G1: (0, 2) has order 3 (compressed: 0x80 then zeros)
+pub fn g1_low_order() -> Vec<u8> {
+    let mut v = vec![0u8; 48];
+    v[0] = 0x80;
+    v
+}
+/// a point of the twist E'(Fp2) outside G2 (found by search; almost every point of the twist is outside G2)
+pub fn g2_outside_subgroup() -> Option<bls12_381_plus::G2Affine> {
+    for k in 0..=255u8 {
+        for f in [0x80u8, 0xa0u8] {
+            let mut v = [0u8; 96];
+            v[0] = f;
+            v[95] = k;
+            let pt = bls12_381_plus::G2Affine::from_compressed_unchecked(&v);
+            if bool::from(pt.is_some()) {
+                let pt = pt.unwrap();
+                if !bool::from(pt.is_torsion_free()) && !bool::from(pt.is_identity()) {
+                    return Some(pt);
+                }
+            }
+        }
+    }
+    None
+}
 /// the BLS12-381 scalar field modulus r, big endian (smallest non-canonical scalar encoding)
 fn modulus_r() -> Vec<u8> {
     hex::decode("73eda753299d7d483339d80809a1d80553bda402fffe5bfeffffffff00000001").unwrap()
@@ -114,6 +138,9 @@ pub fn run_family(name: &str, thorough: bool) -> Vec<Value> {
             decoder_family(&mut p, "pk.from_bytes", &f.pk, thorough, false);
             p.dec("identity".into(), "pk.from_bytes", &g2_identity(), &["forbidden-identity"]);
             p.dec("empty".into(), "pk.from_bytes", &[], &["truncated"]);
+            if let Some(q) = g2_outside_subgroup() {
+                p.dec("point-outside-G2".into(), "pk.from_bytes", &q.to_compressed(), &["forbidden-nonsubgroup"]);
+            }
         }
         "pk_coord" => {
             let pk = BBSplusPublicKey::from_bytes(&f.pk).unwrap();
@@ -127,6 +154,9 @@ pub fn run_family(name: &str, thorough: bool) -> Vec<Value> {
             // swapped coordinates
             let sw = [y.to_vec(), x.to_vec()].concat();
             p.dec("swapped".into(), "pk.from_coordinates", &sw, &["swapped"]);
+            if let Some(q) = g2_outside_subgroup() {
+                p.dec("point-outside-G2".into(), "pk.from_coordinates", &q.to_uncompressed(), &["forbidden-nonsubgroup"]);
+            }
         }
         "sk" => {
             decoder_family(&mut p, "sk.from_bytes", &f.sk, thorough, false);
@@ -137,6 +167,7 @@ pub fn run_family(name: &str, thorough: bool) -> Vec<Value> {
             decoder_family(&mut p, "sig.from_bytes", &f.sig, thorough, true);
             p.dec("identity-A".into(), "sig.from_bytes", &replace(&f.sig, 0, &g1_identity()), &["forbidden-identity"]);
             p.dec("zero-e".into(), "sig.from_bytes", &replace(&f.sig, 48, &[0u8; 32]), &["forbidden-zero-e"]);
+            p.dec("low-order-A".into(), "sig.from_bytes", &replace(&f.sig, 0, &g1_low_order()), &["forbidden-nonsubgroup"]);
             p.dec("modulus-e".into(), "sig.from_bytes", &replace(&f.sig, 48, &modulus_r()), &["noncanonical"]);
         }
         "sig_allflips" => {
@@ -147,6 +178,7 @@ pub fn run_family(name: &str, thorough: bool) -> Vec<Value> {
             decoder_family(&mut p, "pok.from_bytes", &f.proof, thorough, false);
             for (k, nm) in [(0usize, "Abar"), (48, "Bbar"), (96, "D")] {
                 p.dec(format!("identity-{}", nm), "pok.from_bytes", &replace(&f.proof, k, &g1_identity()), &["forbidden-identity"]);
+                p.dec(format!("low-order-{}", nm), "pok.from_bytes", &replace(&f.proof, k, &g1_low_order()), &["forbidden-nonsubgroup"]);
             }
             p.dec("modulus-ecap".into(), "pok.from_bytes", &replace(&f.proof, 144, &modulus_r()), &["noncanonical"]);
             p.dec("empty".into(), "pok.from_bytes", &[], &["truncated"]);
@@ -160,6 +192,7 @@ pub fn run_family(name: &str, thorough: bool) -> Vec<Value> {
         "commitment" => {
             decoder_family(&mut p, "commitment.from_bytes", &f.commitment, thorough, false);
             p.dec("empty".into(), "commitment.from_bytes", &[], &["truncated"]);
+            p.dec("low-order-C".into(), "commitment.from_bytes", &replace(&f.commitment, 0, &g1_low_order()), &["forbidden-nonsubgroup"]);
         }
         "blindfactor" => {
             decoder_family(&mut p, "blindfactor.from_bytes", &f.blind, thorough, true);
@@ -176,7 +209,8 @@ pub fn run_family(name: &str, thorough: bool) -> Vec<Value> {
         "blind_complete" => { crate::props::blind_complete::<Sha>("sha256", &mut p.out, thorough); crate::props::blind_complete::<Shake>("shake256", &mut p.out, thorough); }
         "blind_sound" => { crate::props::blind_sound::<Sha>("sha256", &mut p.out, thorough); crate::props::blind_sound::<Shake>("shake256", &mut p.out, thorough); }
         "update_history" => { crate::props::update_history::<Sha>("sha256", &mut p.out, thorough); crate::props::update_history::<Shake>("shake256", &mut p.out, thorough); }
-        "generators" => { crate::props::generators::<Sha>("sha256", &mut p.out, thorough); crate::props::generators::<Shake>("shake256", &mut p.out, thorough); }
+        "generators" => { crate::props::generators::<Sha>("sha256", &mut p.out, thorough); crate::props::generators::<Shake>("shake256", &mut p.out, thorough); crate::props::generators_cross(&mut p.out); }
+        "limits" => { crate::props::limits::<Sha>("sha256", &mut p.out); crate::props::limits::<Shake>("shake256", &mut p.out); }
         "fresh" => { crate::props::fresh::<Sha>("sha256", &mut p.out); crate::props::fresh::<Shake>("shake256", &mut p.out); }
         "consts" => {
             consts::run(&mut p.out);
@@ -337,6 +371,66 @@ pub mod forgery {
         }})
     }
 
+    /// octets of a proof with Abar = Bbar = the order-3 point (0, 2), D = Bv, e^ = 0, r3^ = -c, built from public data only
+    pub fn forge_low_order<CS: BbsCiphersuite>(pk: &BBSplusPublicKey, header: &[u8], ph: &[u8], claimed: &[Vec<u8>], idx: &[usize], u: usize) -> Option<Vec<u8>>
+    where
+        CS::Expander: for<'a> ExpandMsg<'a>,
+    {
+        let api_id = CS::API_ID;
+        let l = u + idx.len();
+        let gens = Generators::create::<CS>(l + 1, Some(api_id));
+        let dm = BBSplusMessage::messages_to_scalar::<CS>(claimed, api_id).unwrap();
+        let dom = domain::<CS>(pk, &gens, header, api_id);
+        let h = &gens.values[1..];
+        let mut bv = gens.g1_base_point + gens.values[0] * dom;
+        for (k, i) in idx.iter().enumerate() {
+            bv += h[*i] * dm[k].value;
+        }
+        let und: Vec<usize> = (0..l).filter(|i| !idx.contains(i)).collect();
+        let m_cap: Vec<Scalar> = (0..u).map(|j| Scalar::from(1000u64 + j as u64)).collect();
+        let mut t2 = G1Projective::IDENTITY;
+        for (j, i) in und.iter().enumerate() {
+            t2 += h[*i] * m_cap[j];
+        }
+        let low = super::g1_low_order();
+        for k in 1..200u64 {
+            let r1_cap = Scalar::from(k);
+            let t1 = bv * r1_cap;
+            let mut c_arr: Vec<u8> = Vec::new();
+            c_arr.extend_from_slice(&i2osp::<8>(idx.len()));
+            for (kk, i) in idx.iter().enumerate() {
+                c_arr.extend_from_slice(&i2osp::<8>(*i));
+                c_arr.extend_from_slice(&dm[kk].value.to_be_bytes());
+            }
+            c_arr.extend_from_slice(&low);
+            c_arr.extend_from_slice(&low);
+            for p in [bv, t1, t2] {
+                c_arr.extend_from_slice(&p.to_affine().to_compressed());
+            }
+            c_arr.extend_from_slice(&dom.to_be_bytes());
+            c_arr.extend_from_slice(&i2osp::<8>(ph.len()));
+            c_arr.extend_from_slice(ph);
+            let c = hash_to_scalar::<CS>(&c_arr, &[api_id, CS::H2S].concat()).unwrap();
+            let rem = c.to_be_bytes().iter().fold(0u32, |acc, b| (acc * 256 + *b as u32) % 3);
+            if rem != 0 {
+                continue;
+            }
+            let mut out: Vec<u8> = Vec::new();
+            out.extend_from_slice(&low);
+            out.extend_from_slice(&low);
+            out.extend_from_slice(&bv.to_affine().to_compressed());
+            out.extend_from_slice(&Scalar::ZERO.to_be_bytes());
+            out.extend_from_slice(&r1_cap.to_be_bytes());
+            out.extend_from_slice(&(-c).to_be_bytes());
+            for m in m_cap.iter() {
+                out.extend_from_slice(&m.to_be_bytes());
+            }
+            out.extend_from_slice(&c.to_be_bytes());
+            return Some(out);
+        }
+        None
+    }
+
     pub fn run_suite<CS: BbsCiphersuite>(name: &str, out: &mut Vec<Value>)
     where
         CS::Expander: for<'a> ExpandMsg<'a>,
@@ -367,6 +461,24 @@ pub mod forgery {
                 }
             });
             out.push(json!({"id": format!("{}-forgery-{}", name, ci), "call": "proof_verify(json)", "inputs": [hex::encode(js_s.as_bytes())], "outcome": outcome, "tags": ["forgery", "identity"]}));
+            // the same forgery with the order-3 point (0, 2) of E(Fp) in place of the identity: not the identity, pairs trivially;
+            // needs a challenge c = 0 (mod 3) so that Bbar*c vanishes (one try in three over r1^)
+            if let Some(bytes) = forge_low_order::<CS>(&pk, HEADER, PH, claimed, idx, *u) {
+                let pkb = pk.to_bytes();
+                let (claimed2, idx2, b2) = (claimed.clone(), idx.clone(), bytes.clone());
+                let outcome = guard(move || {
+                    let pk = BBSplusPublicKey::from_bytes(&pkb).unwrap();
+                    let proof = match Pok::<CS>::from_bytes(&b2) {
+                        Ok(p) => p,
+                        Err(e) => return format!("err:decode:{e:?}"),
+                    };
+                    match proof.proof_verify(&pk, Some(&claimed2), Some(&idx2), Some(HEADER), Some(PH)) {
+                        Ok(()) => "ok:forged proof ACCEPTED".to_string(),
+                        Err(e) => format!("err:{e:?}"),
+                    }
+                });
+                out.push(json!({"id": format!("{}-forgery-low-order-{}", name, ci), "call": "from_bytes;proof_verify", "inputs": [hex::encode(&bytes)], "outcome": outcome, "tags": ["forgery", "low-order"]}));
+            }
         }
     }
 }
